@@ -48,7 +48,11 @@ fn sig_for(g: &GSet, what: &str, leg: &str, detail: &str) -> String {
         .collect();
     if !creds.is_empty() {
         let hit = creds.iter().find(|(t, _)| detail.contains(&format!("cred[{t}]")) || detail.contains(&format!("Cred(\"{t}\""))).or(if creds.len() == 1 { creds.first() } else { None });
-        if let Some((_, c)) = hit {
+        if detail.contains(":totp[") {
+            kind = "Cred[totp]".to_string();
+        } else if detail.contains(":backup(") {
+            kind = "Cred[backup-codes]".to_string();
+        } else if let Some((_, c)) = hit {
             kind = format!("Cred[{}]", c.pw.label());
         }
     }
